@@ -100,6 +100,10 @@ fn run_script(mut s: TcpStream, script: Vec<Srv>) {
     std::thread::sleep(Duration::from_millis(50));
 }
 
+fn wire_has_body(fname: &str) -> bool {
+    fname != "length-short"
+}
+
 fn thread_count() -> usize {
     std::fs::read_dir("/proc/self/task").map(|d| d.count()).unwrap_or(0)
 }
@@ -515,6 +519,61 @@ pub fn generate(seed: u64, tier: &str, sink: &mut Sink) {
             Ok(())
         };
         sink.push(Case { tags: vec!["kind=release".into()], op: "nop release".into(), impl_line: "nop".into(), oracle: o });
+    }
+    // ---------------------------------------------------------------- (2b) letting go of a response never waits for the peer
+    // "dropping the response promptly releases every thread and socket": with part of the body unread and the
+    // peer silent, for every framing, with and without an overall timeout — drop(), error_for_status() on an error
+    // page, and a response that is simply not looked at (seed C13-seed12: a short unread Content-Length body
+    // drained in `drop`)
+    {
+        let heads: [(&str, &[u8]); 4] = [
+            ("length", b"HTTP/1.1 500 Oops\r\nContent-Length: 100\r\n\r\nonly-ten-b"),
+            ("length-short", b"HTTP/1.1 404 Nope\r\nContent-Length: 12\r\n\r\n"),
+            ("chunked", b"HTTP/1.1 500 Oops\r\nTransfer-Encoding: chunked\r\n\r\na\r\nonly-ten-b\r\n64\r\nmore"),
+            ("close", b"HTTP/1.1 500 Oops\r\n\r\nonly-ten-b"),
+        ];
+        let mut hs = vec![];
+        for (fname, wire) in heads {
+            for timeout in [None, Some(2500u64)] {
+                for how in ["drop", "error_for_status", "read-some-then-drop"] {
+                    let wire = wire.to_vec();
+                    hs.push(std::thread::spawn(move || {
+                        let (port, _acc) = server(vec![vec![Srv::ReadRequest, Srv::Send(wire), Srv::Hold(3000)]]);
+                        let mut rb = attohttpc::get(format!("http://127.0.0.1:{}/", port)).read_timeout(Duration::from_millis(2500));
+                        if let Some(t) = timeout {
+                            rb = rb.timeout(Duration::from_millis(t));
+                        }
+                        let mut resp = match rb.send() {
+                            Err(e) => return (fname, timeout, how, Err(format!("send failed: {}", io_kind(&e))), 0u64),
+                            Ok(r) => r,
+                        };
+                        if how == "read-some-then-drop" && wire_has_body(fname) {
+                            // (four of the ten bytes that have arrived)
+                            let mut b = [0u8; 4];
+                            if let Err(e) = resp.read(&mut b) {
+                                return (fname, timeout, how, Err(format!("reading what had arrived failed: {}", e)), 0u64);
+                            }
+                        }
+                        let t0 = Instant::now();
+                        if how == "error_for_status" {
+                            drop(resp.error_for_status());
+                        } else {
+                            drop(resp);
+                        }
+                        (fname, timeout, how, Ok(()), t0.elapsed().as_millis() as u64)
+                    }));
+                }
+            }
+        }
+        for h in hs {
+            let (fname, timeout, how, r, el) = h.join().unwrap();
+            let o = match r {
+                Err(e) => Err((format!("release-setup-{}", fname), e)),
+                Ok(()) if el > 400 => Err((format!("slow-release-{}", how), format!("{} of a {} response with unread body bytes and a silent peer took {} ms (overall timeout {:?}): letting go of a response waits for nobody", how, fname, el, timeout))),
+                Ok(()) => Ok(()),
+            };
+            sink.push(Case { tags: vec!["kind=release".into(), format!("framing={}", fname), format!("how={}", how), format!("timeout={}", timeout.is_some())], op: format!("nop release {} {}", fname, how), impl_line: "nop".into(), oracle: o });
+        }
     }
     // ---------------------------------------------------------------- (3) timed scenarios vs the model
     let n = if thorough { 120 } else { 24 };
